@@ -83,7 +83,24 @@ def sh(cmd, cwd, timeout=900):
         return 124, "timeout"
 
 
+STMT = re.compile(r"^\s+(?!return\b|if\b|for\b|switch\b|case\b|default\b|go\b|defer\b|var\b|func\b|type\b|break\b|continue\b|\}|//)[A-Za-z_*&][^{}]*$")
+
+
+def delete_candidates(path, text):
+    # statement deletion: whole simple statements (assignments, calls, ++) replaced by nothing
+    out = []
+    for ln, line in enumerate(text.split("\n")):
+        code = line.split("//")[0].rstrip()
+        if not code.strip() or "verifNote" in code or ":=" in code:
+            continue
+        if STMT.match(code) and (code.strip().endswith(")") or "=" in code or code.strip().endswith("++") or code.strip().endswith("--")) and code.count("(") == code.count(")"):
+            out.append((ln, len(line) - len(line.lstrip()), len(line), "_ = 0"))
+    return out
+
+
 def candidates(path, text):
+    if os.environ.get("MUTATE_OP") == "delete":
+        return delete_candidates(path, text)
     out = []
     lines = text.split("\n")
     in_block_comment = False
